@@ -16,6 +16,7 @@ package sorted_set
 
 import (
 	"cmp"
+	"encoding/json"
 	"errors"
 	"math"
 	"math/rand"
@@ -70,6 +71,43 @@ func (s *SortedSet) GetMem() int64 {
 
 // compile time interface check
 var _ constants.CompositeType = (*SortedSet)(nil)
+var _ internal.TypedValue = (*SortedSet)(nil)
+
+// ValueTypeName, MarshalJSON and the decoder registered in init give a sorted set a JSON form that restores to a
+// sorted set with the same members and scores (snapshots, AOF preamble).
+func (s *SortedSet) ValueTypeName() string { return "zset" }
+
+func (s *SortedSet) MarshalJSON() ([]byte, error) {
+	members := s.GetAll()
+	slices.SortFunc(members, func(a, b MemberParam) int { return cmp.Compare(a.Value, b.Value) })
+	encoded := make([][2]string, len(members))
+	for i, m := range members {
+		encoded[i] = [2]string{internal.EncodeString(string(m.Value)), internal.EncodeFloat(float64(m.Score))}
+	}
+	return json.Marshal(encoded)
+}
+
+func init() {
+	internal.RegisterValueType("zset", func(raw []byte) (interface{}, error) {
+		var encoded [][2]string
+		if err := json.Unmarshal(raw, &encoded); err != nil {
+			return nil, err
+		}
+		members := make([]MemberParam, len(encoded))
+		for i, e := range encoded {
+			m, err := internal.DecodeString(e[0])
+			if err != nil {
+				return nil, err
+			}
+			score, err := internal.DecodeFloat(e[1])
+			if err != nil {
+				return nil, err
+			}
+			members[i] = MemberParam{Value: Value(m), Score: Score(score)}
+		}
+		return NewSortedSet(members), nil
+	})
+}
 
 func NewSortedSet(members []MemberParam) *SortedSet {
 	s := &SortedSet{
